@@ -243,13 +243,13 @@ class CHECK(core.Check):
                "load: the file switch of `load` is outside the model (the command is dispatched like any other)",
                "tabs/other white space BETWEEN tokens are not separators of REO_Chunks; layouts use spaces between "
                "tokens (indentation and trailing white space range over all Python white space)",
-               "missing final newline: exercised by the correspondence, not covered by a theorem"]
+               "missing final newline: C16_final_newline_optional / C16_layout_noeol"]
     TECHNIQUE = ("Lean 4 theorem over all layouts (structural induction on layout, runs, segments; an inductive "
                  "'spaced tokens' predicate closed under strip/join) + differential correspondence with the real reader")
     LEVEL_TEXT = ("Full proof on the model of the repaired reader: for every well-formed Layout (any indentation, "
                   "spacing, backslash and connective continuations, filler and comments) `commands (render L) = erase L` "
                   "(C16_layout), hence two layouts of one program dispatch the same commands (C16_layouts_agree) and "
-                  "every well-formed program has a layout (C16_canon, C16_program). For the code as found the same is "
+                  "every well-formed program has a layout (C16_canon, C16_program); the newline at the very end of the file is optional (C16_final_newline_optional, C16_layout_noeol). For the code as found the same is "
                   "proved under Layout.spaceLead (C16_layout_asfound_partial) and refuted without it "
                   "(C16_asfound_counterexample, defect D50). The model is tied to building.py/globaling.py by running "
                   "both on the same texts.")
